@@ -15,7 +15,7 @@ Extraction "model.ml"
   SpecEnc.fsr SpecEnc.opensessionrsp SpecEnc.rakp2 SpecEnc.rakp4 SpecEnc.dcmicaps SpecEnc.dcmimand SpecEnc.dcmiopt
   SpecEnc.dcmimgmt SpecEnc.dcmipower SpecEnc.powerreading SpecEnc.dcmisensor
   mk_session mk_active outcome_code spec_sessionless spec_setup show_request show_lanreq
-  sessionless_send session_send new_session determine SpecParse.request_body SpecParse.wf_request SpecParse.kind_of
+  sessionless_send session_send session_close new_session determine SpecParse.request_body SpecParse.wf_request SpecParse.kind_of
   SpecParse.open_session_request SpecParse.rakp_message_1 SpecParse.rakp_message_3 SpecParse.command_code SpecParse.command_kind
   Bmc.accept Bmc.open_session Bmc.rakp1 Bmc.rakp3 ser_request ser_opensessionreq ser_rakp1 ser_rakp3 ser_message ser_v2session ser_v1session ser_aescbc ser_rmcp
   sessionless_command_packet payload_packet session_command_packet receive
